@@ -352,31 +352,37 @@ def tagSuffixes : List Bytes → Bytes → List Bytes
   | t :: ts, rest =>
     (t ++ (ts.flatMap fun u => cComma :: u) ++ rest) :: tagSuffixes ts rest
 
+/-- the unsorted path of `scanKey`: sort the tag start indices, rebuild the key, look for
+    duplicates among neighbours -/
+def scanKeySort (name : Bytes) (raws : List Bytes) (rest : Bytes) : Except Err (Bytes × Bytes) :=
+  match (insertionSort (fun a b => cmpBytes (rawTagKey a) (rawTagKey b) == .lt) (tagSuffixes raws rest)).mapM
+      scanToSpaceOr with
+  | none => .error (.panic "scanToSpaceOr")
+  | some vs =>
+    if adjacentDup ((insertionSort (fun a b => cmpBytes (rawTagKey a) (rawTagKey b) == .lt)
+        (tagSuffixes raws rest)).map rawTagKey) then .error .duplicateTags
+    else .ok (name ++ (vs.flatMap fun v => cComma :: v), rest)
+
+/-- `scanKey` after the measurement when tags follow (`r0` starts after the first comma) -/
+def scanKeyTags (name r0 : Bytes) : Except Err (Bytes × Bytes) :=
+  match scanTags (r0.length + 1) r0 with
+  | .error e => .error e
+  | .ok (raws, rest) =>
+    match raws.find? (fun t => reservedTagKeys.contains (rawTagKey t)) with
+    | some t => .error (.reservedTag (rawTagKey t))
+    | none =>
+      match checkSorted (raws.map rawTagKey) with
+      | .error e => .error e
+      | .ok true => .ok (name ++ (raws.flatMap fun t => cComma :: t), rest)
+      | .ok false => scanKeySort name raws rest
+
 /-- `scanKey(buf, 0)`: (key, rest starting at the space) -/
 def scanKey (buf0 : Bytes) : Except Err (Bytes × Bytes) :=
-  let buf := skipWhitespace buf0
-  match scanMeasurement buf with
+  match scanMeasurement (skipWhitespace buf0) with
   | (_, .noname) => .error .missingMeasurement
   | (_, .eof) => .error .missingFields
   | (name, .fields rest) => .ok (name, rest)
-  | (name, .tags r0) =>
-    match scanTags (r0.length + 1) r0 with
-    | .error e => .error e
-    | .ok (raws, rest) =>
-      match raws.find? (fun t => reservedTagKeys.contains (rawTagKey t)) with
-      | some t => .error (.reservedTag (rawTagKey t))
-      | none =>
-        match checkSorted (raws.map rawTagKey) with
-        | .error e => .error e
-        | .ok true => .ok (name ++ (raws.flatMap fun t => cComma :: t), rest)
-        | .ok false =>
-          let sufs := tagSuffixes raws rest
-          let sorted := insertionSort (fun a b => cmpBytes (rawTagKey a) (rawTagKey b) == .lt) sufs
-          match sorted.mapM scanToSpaceOr with
-          | none => .error (.panic "scanToSpaceOr")
-          | some vs =>
-            if adjacentDup (sorted.map rawTagKey) then .error .duplicateTags
-            else .ok (name ++ (vs.flatMap fun v => cComma :: v), rest)
+  | (name, .tags r0) => scanKeyTags name r0
 
 /-! ### scanFields -/
 
